@@ -151,6 +151,9 @@ def run_case(case):
     log = []
     gate = Gate(case.get("schedule") or [], grace=case.get("grace", 4.0))
     folder_of = {nm: k[0] for k, nm in names.items()}
+    # "unwritable output": the LAST member of each folder in case["failsink"] cannot be written (a product whose write raises ENOSPC;
+    # for a directory sink, a non-empty directory standing where the file is to be created)
+    unwritable = {names[(f, len(sizes[f - 1]))] for f in case.get("failsink", [])}
 
     class GatedIO(py7zr.io.Py7zIO):
         def __init__(self, fname, key):
@@ -163,9 +166,13 @@ def run_case(case):
                 self.first = False
                 gate.turn(self.key)
                 try:
+                    if self.fname in unwritable:
+                        raise OSError(28, "No space left on device (injected)")
                     return self.buf.write(s)
                 finally:
                     gate.done(self.key)
+            if self.fname in unwritable and len(s) > 0:
+                raise OSError(28, "No space left on device (injected)")
             return self.buf.write(s)
 
         def read(self, size=None):
@@ -237,7 +244,7 @@ def run_case(case):
     # stream-less members (directories, empty files) of a full extraction are processed and reported too; ids as SlowCallback._rec assigns them
     streamless = [[0, 1 + sum(map(ord, nm)) % 1000] for nm in (["dir-between", "zero-ü"] if len(sizes) >= 2 and not case.get("targets") else [])]
     trace = [{"e": "arch", "sizes": real_sizes, "damaged": sorted(case.get("damaged", [])), "mode": mode, "delivered": [list(k) for k in want],
-              "streamless": streamless}]
+              "streamless": streamless, "failsink": sorted(case.get("failsink", []))}]
     try:
         src = path if mode in ("thread", "process", "two") else io.BytesIO(raw)
         objs = [py7zr.SevenZipFile(src, "r", mp=(mode == "process"))]
@@ -255,6 +262,8 @@ def run_case(case):
             try:
                 if case.get("sink", "factory") == "path":
                     od = os.path.join(wd, f"out{oi}")
+                    for nm in unwritable:
+                        os.makedirs(os.path.join(od, nm, "occupied"))
                     if case.get("targets"):
                         z.extract(od, targets=case["targets"], callback=cbs[-1] if oi == 0 else None)
                     else:
